@@ -718,22 +718,20 @@ Section ValEngineProofs.
     - destruct ev as [|t|t|t]; try reflexivity.
       + destruct (status_dec (stE (core task s) t) Ready) as [Hs|Hs].
         * rewrite Hs. reflexivity.
-        * rewrite (cls_step_begin_off _ _ Hs). destruct (stE (core task s) t); try reflexivity. congruence.
+        * rewrite (cls_step_begin_off _ _ Hs). destruct (stE (core task s) t); reflexivity.
       + destruct (status_dec (stE (core task s) t) Running) as [Hs|Hs].
         * rewrite Hs. reflexivity.
-        * rewrite (cls_step_end_off _ _ Hs). destruct (stE (core task s) t); try reflexivity. congruence.
+        * rewrite (cls_step_end_off _ _ Hs). destruct (stE (core task s) t); reflexivity.
     - destruct (nth_error (pend task s) i) as [[c k]|]; reflexivity.
   Qed.
 
   (* the dependency part of a run is a run of the engine of C01 *)
   Theorem core_vrun evs : core task (vrunE evs) = runE (core_events evs).
   Proof.
-    unfold vrun, run. generalize vinitE at 1. intros s0.
-    change (init task teq tasks preds) with (core task vinitE).
     assert (H : forall evs s, core task (fold_left vstepE evs s) = fold_left stepE (core_events evs) (core task s)).
     { clear. induction evs as [|e evs IH]; intros s; cbn [fold_left core_events flat_map]; [reflexivity|].
       rewrite IH, core_vstep. destruct e as [ev|i]; reflexivity. }
-    clear s0. apply H.
+    unfold vrun, run. rewrite H. reflexivity.
   Qed.
 
   (* (a) a task that has started found, in every data flow, the copy of its producer, the
